@@ -241,7 +241,25 @@ impl<'tcx> Cx<'tcx> {
                 ("def", self.did(*did)),
                 ("args", self.generic_args(args)),
             ]),
-            ty::Alias(..) => J::O(vec![("k", s("alias")), ("str", s(st))]),
+            ty::Alias(al) => {
+                let mut o = vec![("k", s("alias")), ("str", s(st))];
+                match al.kind {
+                    ty::AliasTyKind::Projection { def_id } => {
+                        o.push(("akind", s("projection")));
+                        o.push(("name", s(tcx.item_name(def_id).to_string())));
+                        o.push(("trait", s(self.path(tcx.parent(def_id)))));
+                        o.push(("args", self.generic_args(al.args)));
+                    }
+                    ty::AliasTyKind::Opaque { def_id } => {
+                        o.push(("akind", s("opaque")));
+                        o.push(("def", self.did(def_id)));
+                    }
+                    _ => {
+                        o.push(("akind", s("other")));
+                    }
+                }
+                J::O(o)
+            }
             _ => J::O(vec![("k", s("other")), ("str", s(st))]),
         }
     }
